@@ -235,21 +235,24 @@ class Disagreement:
         }
 
 
-def compare_pairs(pairs, replies):
-    """first index where a facet differs -> (index, [facets], real, model) or None.
+def compare_pairs(pairs, replies, accept=None):
+    """first index where a facet differs (and accept(line, facets) holds, when given)
+    -> (index, [facets], real, model) or None.
     Facets present on only one side are ignored unless the model answered bad-op/bad-handle."""
     for i, ((line, real), rep) in enumerate(zip(pairs, replies)):
         model = parse_reply(rep)
         if "_raw" in model and model["_raw"] in ("bad-op", "bad-handle"):
             raise MachineryError(f"driver rejected request {line!r}: {model['_raw']}")
         diffs = [k for k in real if k in model and real[k] != model[k]]
-        if diffs:
+        if diffs and (accept is None or accept(line, diffs)):
             return i, diffs, real, model
     return None
 
 
-def run_suite(suite, seqs):
-    """execute all sequences on the real code and the model; returns (disagreements, stats)"""
+def run_suite(suite, seqs, accept=None):
+    """execute all sequences on the real code and the model; returns (disagreements, stats).
+    accept(line, facets) selects the disagreements that matter to the caller: per sequence the FIRST
+    accepted disagreement is reported."""
     all_pairs = []
     lines = []
     t0 = time.time()
@@ -271,7 +274,7 @@ def run_suite(suite, seqs):
         reps = replies[pos : pos + len(pairs)]
         pos += len(pairs)
         n_lines += len(pairs)
-        res = compare_pairs(pairs, reps)
+        res = compare_pairs(pairs, reps, accept)
         if res is not None:
             i, diffs, real, model = res
             out.append(Disagreement(suite.name, seq, i, pairs[i][0], diffs, real, model))
@@ -288,13 +291,13 @@ def run_suite(suite, seqs):
     return out, stats
 
 
-def still_disagrees(suite, seq, facets):
+def still_disagrees(suite, seq, facets, accept=None):
     try:
         pairs = suite.run_real(seq)
         if not pairs:
             return None
         replies = run_driver(["reset"] + [p[0] for p in pairs])[1:]
-        res = compare_pairs(pairs, replies)
+        res = compare_pairs(pairs, replies, accept)
     except MachineryError:
         return None
     except Exception:  # noqa: BLE001 - a shrunk sequence may be ill-formed for the harness
@@ -307,7 +310,7 @@ def still_disagrees(suite, seq, facets):
     return Disagreement(suite.name, seq, i, pairs[i][0], diffs, real, model)
 
 
-def shrink(suite, dis, facets=None, max_attempts=150):
+def shrink(suite, dis, facets=None, max_attempts=150, accept=None):
     """delta-debugging over the op list (ops after the failing line are dropped first)"""
     best = dis
     seq = list(dis.seq)
@@ -321,7 +324,7 @@ def shrink(suite, dis, facets=None, max_attempts=150):
             if not cand:
                 continue
             attempts += 1
-            got = still_disagrees(suite, cand, facets)
+            got = still_disagrees(suite, cand, facets, accept)
             if got is not None:
                 seq, best, reduced = cand, got, True
                 n = max(n - 1, 2)
